@@ -43,7 +43,7 @@ FORMS = {
     'CTLS': [('A', ('G', P)), ('A', ('F', ('G', P))), ('E', ('G', ('F', Q))),
              ('A', ('G', ('imp', P, ('A', ('F', ('E', ('X', Q)))))))],
 }
-FS = [None, [], [[0]], [[0], [1]]]
+FS = [None, [], [[0]], [[0], [1]], [[0, 1]]]
 MODES = ('obj', 'text')
 
 
@@ -51,17 +51,25 @@ def make_structures():
     return [Kripke(S=[0, 1], R=[(0, 1), (1, 1), (1, 0)], L={0: {'p'}, 1: {'q'}}),
             Kripke(S=[0, 1, 2], S0=[2], R=[(0, 1), (1, 0), (0, 0), (1, 1), (2, 0), (2, 2)],
                    L={0: {'p', 'fair'}, 1: {'q', '[A(G(p))]'}, 2: {'p', 'q'}}),
-            Kripke(S=[0], R=[(0, 0)], L={0: {'p'}})]
+            Kripke(S=[0], R=[(0, 0)], L={0: {'p'}}),
+            # two separate 2-state components with self-loops everywhere: [{0,1}] is met by both,
+            # [{0},{1}] by none - fairness lists with equal unions but different fair states
+            Kripke(S=[0, 1, 2, 3], R=[(0, 2), (2, 0), (0, 0), (2, 2), (1, 3), (3, 1), (1, 1), (3, 3), (0, 1)],
+                   L={0: {'p'}, 1: {'q'}, 2: {'p', 'q'}, 3: set()})]
 
 
 def alphabet():
     ops = []
     for c in ('CTL', 'LTL', 'CTLS'):
-        for ki in range(3):
+        for ki in range(4):
             for fi in range(4):
                 for mode in MODES:
-                    for Fi in range(4):
-                        ops.append((c, ki, fi, mode, Fi))
+                    ops.append((c, ki, fi, mode, 0))
+            # fairness: formula objects 0 and 3, every F list (the lists 3 and 4 have equal unions)
+            for fi in (0, 3):
+                for Fi in range(1, len(FS)):
+                    ops.append((c, ki, fi, 'obj', Fi))
+            ops.append((c, ki, 1, 'text', 2))
     for c in ('CTL', 'LTL', 'CTLS'):
         for ki in (0, 1):
             ops.append((c, ki, 1, 'text-noparser', 0))
@@ -70,7 +78,7 @@ def alphabet():
 
 def sub_alphabet(n):
     ops = alphabet()
-    picks = [o for o in ops if o[3] == 'obj' and o[1] == 1 and o[2] in (1, 3) and o[4] in (0, 2)]
+    picks = [o for o in ops if o[3] == 'obj' and o[1] in (1, 3) and o[2] == 3 and o[4] in (0, 3, 4)]
     picks += [o for o in ops if o[3] == 'text' and o[1] == 0 and o[2] == 3 and o[4] == 0]
     picks += [o for o in ops if o[3] == 'text-noparser' and o[1] == 0]
     return picks[:n]
@@ -171,7 +179,7 @@ def plan(tier, seed):
     base = baselines()
     n = len(alphabet())
     sh = []
-    for lo, hi in chunks(n, 4):
+    for lo, hi in chunks(n, 3):
         sh.append(['pairs', lo, hi, base])
     m = 12 if tier == 'quick' else 26
     for i in range(m):
